@@ -68,7 +68,7 @@ CLAIMED = {
     'C11': ('Decidable part: joined axis strictly increasing, long-time points reproduced with radius-corrected values, short-time points kept '
             'exactly below the first long-time point (1..8 symbolic short-time points against the Eskilson axis and a symbolic axis); '
             'interpolation at a stored height returns the stored curve and radius for 1..5 symbolic stored heights (native replay with the '
-            'real scipy); radius correction identity/additive/monotone; grab_g_function glue; the stored long-time family is computed by pygfunction calls that receive the boundary condition, solver and segment options asked for, the field at each height/depth/radius and that height's times (pygfunction as a recorder).',
+            'real scipy); radius correction identity/additive/monotone; grab_g_function glue; the stored long-time family is computed by pygfunction calls that receive the boundary condition, solver and segment options asked for, the field at each height/depth/radius and the times of that height (pygfunction as a recorder).',
             'NOT claimed: the numbers of the FLS/UHTR 1e-4 anchor and the 20 % MIFT clause (pygfunction numerics). interp1d replaced by its node contract; ln '
             'uninterpreted with product rule + monotonicity instances; stored heights >= 0.01 m apart; no exact tie of a short-time point '
             'with the first long-time point.', '3/C11', None),
